@@ -176,14 +176,7 @@ func runC06(c *Ctx) {
 	if f := c.Fn("pk.Keeper.EndBlockCIS"); f != nil {
 		if p := c.one(f, false, "pk.Keeper.PruneKeyAssignments"); p != nil {
 			c.Check(inLoop(p) && elementOfCall(arg(p, 1), "pk.Keeper.GetAllConsumersWithIBCClients"), fk(f, "all-consumers-with-clients"), p, "PruneKeyAssignments runs for every id of GetAllConsumersWithIBCClients; found "+describe(arg(p, 1)))
-			// no phase filter in front of it
-			for _, b := range f.Blocks {
-				if iff, ok := b.Instrs[len(b.Instrs)-1].(*ssa.If); ok {
-					if cl, _ := callOf(normCond(iff.Cond).V); cl != nil && isCallTo(cl, "pk.Keeper.GetConsumerPhase", "pk.Keeper.IsConsumerActive") {
-						c.Check(false, fk(f, "no-phase-filter"), iff, "pruning must not be filtered by phase (stopped consumers keep pruning until removal)")
-					}
-				}
-			}
+			c.Check(unconditionalInLoop(p), fk(f, "no-phase-filter"), p, "pruning is unconditional inside the loop (stopped consumers keep pruning until removal)")
 		}
 	}
 	if eb := c.Fn("provider.AppModule.EndBlock"); eb != nil {
